@@ -413,6 +413,11 @@ func judge(c *Case, obs []CallObs, res *lib.Result) {
 			tags["opt:callbacks"] = true
 		}
 		wantErr := badAny || mixedDelivered
+		if o.ArgsChanged != "" {
+			// the caller keeps its option list and may pass it to its next call: a call that changes
+			// it makes that next call carry other options than the caller built
+			fail("caller-options-modified", fmt.Sprintf("call %d changed the option list it was handed (%s)", i, o.ArgsChanged))
+		}
 		switch o.Class {
 		case "panic", "hang":
 			fail("call-"+o.Class, fmt.Sprintf("call %d: %s %s", i, o.Class, o.Err))
